@@ -25,7 +25,7 @@ MODES = ['both-empty', 'left-empty', 'right-empty', 'left-ends-first-after-misma
          'both-end-on-match', 'left-ends-first-after-match', 'right-ends-first-after-match']
 OPS = ['join', 'leftjoin', 'rightjoin', 'outerjoin', 'lookupjoin', 'antijoin']
 REQUIRED = ['views-read-twice'] + ['mode:' + m for m in MODES] + ['op:' + o for o in OPS] + ['op:crossjoin',
-            'none-key-left+right-empty', 'none-key-right+left-empty', 'ragged-input', 'natural-key', 'lkey!=rkey', 'compound-key', 'presorted', 'presorted-ragged', 'key-by-index', 'key-index-0', 'chunked-sort-of-right-input']
+            'none-key-left+right-empty', 'none-key-right+left-empty', 'ragged-input', 'natural-key', 'lkey!=rkey', 'compound-key', 'presorted', 'presorted-ragged', 'key-by-index', 'key-index-0', 'chunked-sort-of-right-input', 'second-view-on-the-same-input-objects']
 
 
 def required(tier):
@@ -254,6 +254,18 @@ def judge(case, ctx):
         ks = [oracles.keytuple(r, lk) for r in got[1:]]
         if not oracles.ascending(ks):
             out.append({'kind': 'keys-not-ascending', 'mode': mode, 'observed': got[1:]})
+    ragged_in = any(len(r) != len(left[0]) for r in left[1:]) or any(len(r) != len(right[0]) for r in right[1:])
+    if not out and ragged_in and not case['presorted'] and op in ('leftjoin', 'rightjoin', 'outerjoin', 'lookupjoin'):
+        # a second view over the *same* table objects with another `missing`: what the first view did while squaring the rows up
+        # must not show in it
+        ctx.seen('second-view-on-the-same-input-objects')
+        kw2 = dict(kw, missing='M2')
+        e2h, e2r = oracles.ref_join(op, copy.deepcopy(case['left']), copy.deepcopy(case['right']), lkey, rkey, 'M2', case['lprefix'], case['rprefix'])
+        got2 = util.attempt_rows(lambda: fn(a, b, **kw2))
+        if isinstance(got2, util.Raised):
+            out.append({'kind': 'exception', 'detail': got2.text, 'where': got2.where, 'at': 'second view on the same inputs'})
+        elif util.crow(got2[0]) != util.crow(e2h) or oracles.multiset(got2[1:]) != oracles.multiset(e2r):
+            out.append({'kind': 'rows-differ', 'mode': mode, 'at': 'second view on the same input objects, missing=M2', 'expected': e2r, 'observed': got2[1:]})
     return out
 
 
